@@ -74,6 +74,31 @@ fn tnames(ts: &[u16]) -> String {
     ts.iter().map(|t| tname(*t)).collect::<Vec<_>>().join("+")
 }
 
+/// Type numbers that cannot be zone data, or that only a signer produces:
+/// OPT (41) and the QTYPE/Meta-TYPE range 128..=255 (RFC 6895 §3.1; RFC 4034
+/// §4.1.2 and RFC 5155 §3.2.1 say their bits "MUST be clear, as they do not
+/// appear in zone data"), NSEC3 (50; RFC 5155 §7.1: never present in a type
+/// bitmap) and, in an NSEC3-signed zone, NSEC (47).  The library lets a
+/// caller store such a record (`ZoneRecordData::Unknown`), and the property
+/// says "exactly the types present", so for a record of such a type that IS
+/// in the input the oracle accepts the bit set or clear; it never accepts
+/// the bit when the type is absent, and every other type number must be
+/// listed exactly.
+fn unconstrained(t: u16, nsec3: bool) -> bool {
+    t == 41 || (128..=255).contains(&t) || t == 50 || (nsec3 && t == T_NSEC)
+}
+
+/// None if `got` is acceptable; otherwise (missing, extra).
+fn bitmap_diff(got: &[u16], want: &[u16], mandated: &[u16], nsec3: bool) -> Option<(Vec<u16>, Vec<u16>)> {
+    let missing: Vec<u16> = want.iter().copied().filter(|t| !got.contains(t) && (mandated.contains(t) || !unconstrained(*t, nsec3))).collect();
+    let extra: Vec<u16> = got.iter().copied().filter(|t| !want.contains(t)).collect();
+    if missing.is_empty() && extra.is_empty() {
+        None
+    } else {
+        Some((missing, extra))
+    }
+}
+
 type LName = Name<Bytes>;
 type LData = ZoneRecordData<Bytes, LName>;
 type LRec = Record<LName, LData>;
@@ -526,6 +551,36 @@ impl Zone {
         t
     }
 
+    /// Types the generator lists regardless of the RRsets at the name.
+    fn nsec_mandated(&self, u: &Universe, id: usize, dnskey: bool) -> Vec<u16> {
+        let mut m = vec![T_RRSIG, T_NSEC];
+        if id == u.apex && dnskey {
+            m.push(T_DNSKEY);
+        }
+        m
+    }
+
+    fn nsec3_mandated(&self, u: &Universe, id: usize, dnskey: bool) -> Vec<u16> {
+        let mut m = match self.cls[id] {
+            Cls::Ent => return Vec::new(),
+            Cls::Cut => {
+                if self.has(id, T_DS) {
+                    vec![T_RRSIG]
+                } else {
+                    vec![]
+                }
+            }
+            _ => vec![T_RRSIG],
+        };
+        if id == u.apex {
+            m.push(T_NSEC3PARAM);
+            if dnskey {
+                m.push(T_DNSKEY);
+            }
+        }
+        m
+    }
+
     /// Expected NSEC3 bitmap types (RFC 5155 §7.1).
     fn nsec3_types(&self, u: &Universe, id: usize, dnskey: bool) -> Vec<u16> {
         let mut t: Vec<u16> = match self.cls[id] {
@@ -858,9 +913,13 @@ fn check_nsec(run: &Run, z: &Zone, sorted: &Sorted, dnskey: bool, loc: &mut Loca
         }
         for g in &got {
             let want = z.nsec_types(u, g.owner, dnskey);
-            if g.types != want {
-                let missing: Vec<u16> = want.iter().copied().filter(|t| !g.types.contains(t)).collect();
-                let extra: Vec<u16> = g.types.iter().copied().filter(|t| !want.contains(t)).collect();
+            let mand = z.nsec_mandated(u, g.owner, dnskey);
+            for t in &want {
+                if unconstrained(*t, false) && !mand.contains(t) {
+                    loc.inc(if g.types.contains(t) { "observed_meta_or_signer_type_in_input_listed" } else { "observed_meta_or_signer_type_in_input_not_listed" });
+                }
+            }
+            if let Some((missing, extra)) = bitmap_diff(&g.types, &want, &mand, false) {
                 let wh = if g.owner == u.apex {
                     "apex"
                 } else if z.cls[g.owner] == Cls::Cut {
@@ -1261,9 +1320,13 @@ fn check_nsec3(run: &Run, z: &Zone, sorted: &Sorted, n3: &N3Run, loc: &mut Local
         }
         for g in &got {
             let want = z.nsec3_types(u, g.id, cfg.dnskey);
-            if g.types != want {
-                let missing: Vec<u16> = want.iter().copied().filter(|t| !g.types.contains(t)).collect();
-                let extra: Vec<u16> = g.types.iter().copied().filter(|t| !want.contains(t)).collect();
+            let mand = z.nsec3_mandated(u, g.id, cfg.dnskey);
+            for t in &want {
+                if unconstrained(*t, true) && !mand.contains(t) {
+                    loc.inc(if g.types.contains(t) { "observed_meta_or_signer_type_in_input_listed" } else { "observed_meta_or_signer_type_in_input_not_listed" });
+                }
+            }
+            if let Some((missing, extra)) = bitmap_diff(&g.types, &want, &mand, true) {
                 let wh = if g.id == u.apex {
                     "apex"
                 } else {
@@ -1487,7 +1550,8 @@ fn slots(quick: bool) -> Vec<Slot> {
 
 /// Names that are probed in addition to the universe names, their ancestors
 /// and their wildcard children.
-const EXTRA_PROBES: [&str; 19] = [
+const EXTRA_PROBES: [&str; 20] = [
+    "w.z.",
     "_.z.",
     "0.z.", "b.z.", "zzz.z.", "a.a.z.", "x.b.a.z.", "x.y.a.z.", "x.c.z.", "x.g.c.z.", "x.d.z.", "j.f.z.", "x.e.f.z.", "x.k.e.f.z.", "x.h.f.z.", "x.y.f.z.",
     "x.y.z.", "e.z.", "cc.z.", "x.o.c.z.",
@@ -1605,6 +1669,63 @@ fn check_sorted(run: &Run, recs: &[(Labels, u16, u8)], sorted: &Sorted, loc: &mu
         }
     }
     held
+}
+
+// ------------------------------------------------------ type-axis sweep
+
+/// Boundary menu of RR type numbers for the bitmap TYPE axis.
+fn type_menu() -> Vec<u16> {
+    let mut m: Vec<u16> = (1..=64).collect();
+    m.extend([99, 127, 128, 129]);
+    m.extend(249..=258); // TKEY TSIG IXFR AXFR MAILB MAILA ANY URI CAA AVC
+    m.extend([0x7FFF, 0x8000, 0x8001, 32770]);
+    m.extend([65279, 65280, 65281, 65534, 65535]);
+    // first / last type of several windows
+    for k in [1u16, 2, 127, 128, 254, 255] {
+        m.push(k * 256);
+        m.push(k * 256 + 255);
+    }
+    m.sort();
+    m.dedup();
+    m
+}
+
+/// Zones `z. SOA NS; a.z. A; w.z. A; c.z. NS; g.c.z. A` plus one RRset (or
+/// two RRsets) of menu types at ONE of: the plain owner w.z., the delegation
+/// owner c.z., the apex.  Records of types the harness has no typed builder
+/// for are stored as `ZoneRecordData::Unknown`.
+fn sweep_zones() -> Vec<Vec<(Labels, u16, u8)>> {
+    let menu = type_menu();
+    let mut sets: Vec<Vec<u16>> = menu.iter().map(|t| vec![*t]).collect();
+    for (i, a) in menu.iter().enumerate() {
+        for b in &menu[i + 1..] {
+            sets.push(vec![*a, *b]);
+        }
+    }
+    let places = ["w.z.", "c.z.", "z."];
+    let mut out = Vec::new();
+    for place in places {
+        for set in &sets {
+            // a second SOA at the apex is not a zone (documented error)
+            if place == "z." && set.contains(&T_SOA) {
+                continue;
+            }
+            let mut recs = apex_recs();
+            recs.push((parse_name("a.z."), T_A, 1));
+            recs.push((parse_name("c.z."), T_NS, 1));
+            recs.push((parse_name("g.c.z."), T_A, 1));
+            if place != "w.z." {
+                recs.push((parse_name("w.z."), T_A, 1));
+            }
+            for t in set {
+                // variant 21: distinct RDATA from the base records (second NS
+                // at the apex / at c.z. joins the existing NS RRset)
+                recs.push((parse_name(place), *t, 21));
+            }
+            out.push(recs);
+        }
+    }
+    out
 }
 
 fn zone_is_nontrivial(z: &Zone) -> bool {
@@ -1796,6 +1917,70 @@ fn main() {
         }
     });
 
+    // ---- TYPE axis of the bitmaps: every menu type, singly and in pairs,
+    //      at a plain owner, at a delegation owner and at the apex
+    let sweep = sweep_zones();
+    let sweep_cfgs: Vec<N3Run> = [
+        N3Cfg { salt: vec![], iters: 0, opt_out: false, exclude: true, dnskey: true, ttl_mode: 0 },
+        N3Cfg { salt: vec![], iters: 0, opt_out: true, exclude: true, dnskey: false, ttl_mode: 0 },
+        N3Cfg { salt: vec![0xAB], iters: 5, opt_out: true, exclude: false, dnskey: true, ttl_mode: 0 },
+    ]
+    .into_iter()
+    .map(|c| N3Run::new(&u, c))
+    .collect();
+    sweep.par_chunks(64).for_each(|chunk| {
+        let mut loc = Local::default();
+        let run = Run { ctx: &ctx, u: &u, apex: lname(&u.apex_labels), verbose: false };
+        for recs in chunk {
+            let recs = recs.clone();
+            wd.enter(|| json!({"type_sweep": true, "records": recs.iter().map(|(o, t, v)| json!([show_name(o), t, v])).collect::<Vec<_>>()}));
+            let sorted = match guard(|| sorted_of(&recs)) {
+                Ok(s) => s,
+                Err(p) => {
+                    ctx.violation(&format!("C13|sorted-records|panic|{}", panic_class(&p)), &format!("SortedRecords::from_iter panicked: {p}"), json!({"mode": "sorted", "records": recs.iter().map(|(o, t, v)| json!([show_name(o), t, v])).collect::<Vec<_>>()}));
+                    wd.leave();
+                    continue;
+                }
+            };
+            let eff = check_sorted(&run, &recs, &sorted, &mut loc);
+            if eff.len() != recs.len() {
+                loc.inc("type_sweep_records_not_held_by_sorted_records");
+            }
+            let z = Zone::build_eff(&u, recs, &eff);
+            loc.inc("type_sweep_zones");
+            for dnskey in [true, false] {
+                check_nsec(&run, &z, &sorted, dnskey, &mut loc);
+            }
+            for n3 in &sweep_cfgs {
+                check_nsec3(&run, &z, &sorted, n3, &mut loc);
+            }
+            let mut k = Vec::new();
+            for (o, t, v) in &z.recs {
+                k.extend_from_slice(&wire(o));
+                k.extend_from_slice(&t.to_le_bytes());
+                k.push(*v);
+            }
+            for mode in [0u8, 3] {
+                let mut kk = k.clone();
+                kk.push(mode);
+                loc.distinct.push(fnv(&kk));
+            }
+            wd.leave();
+        }
+        stats.distinct_many(loc.distinct.drain(..));
+        shapes.lock().unwrap().extend(loc.shapes.drain(..));
+        let mut t = total.lock().unwrap();
+        t.evals += loc.evals;
+        t.probes += loc.probes;
+        for (k, v) in &loc.c {
+            t.add(k, *v);
+        }
+        for i in 0..32 {
+            t.nsec_len[i] += loc.nsec_len[i];
+            t.nsec3_len[i] += loc.nsec3_len[i];
+        }
+    });
+
     // deterministic samples: fixed zone indices, rendered serially
     let mut samples = Vec::new();
     {
@@ -1848,6 +2033,16 @@ fn main() {
                 "extras": "absent / present: out-of-zone records m. (before the apex), zz. and a.zz. (after the zone), and the in-zone name _.z. A",
                 "nsec_configs": ["assume_dnskeys_will_be_added = true", "false"],
                 "nsec3_configs": n3runs.iter().map(|c| c.cfg.json()).collect::<Vec<_>>(),
+                "type_axis_sweep": {
+                    "types": type_menu(),
+                    "sets": "every menu type singly and every unordered pair",
+                    "placements": ["plain owner w.z.", "delegation owner c.z. (next to its NS)", "apex z. (next to SOA+NS; sets containing SOA skipped)"],
+                    "base_zone": "z. SOA NS; a.z. A; w.z. A; c.z. NS; g.c.z. A",
+                    "zones": sweep.len(),
+                    "nsec3_configs": sweep_cfgs.iter().map(|c| c.cfg.json()).collect::<Vec<_>>(),
+                    "storage": "typed record data for A NS CNAME SOA TXT AAAA DS, ZoneRecordData::Unknown for every other number",
+                    "policy": "types 41, 128..=255, 50 (and 47 under NSEC3) cannot be zone data / are signer output: when such a record is in the input its bit may be set or clear (observed_* counters record what the library does); every other type number must be listed exactly; SortedRecords refused none of the menu types unless type_sweep_records_not_held_by_sorted_records > 0",
+                },
                 "probe_names": u.names.len(),
                 "probe_types": PROBE_TYPES.iter().map(|t| tname(*t)).collect::<Vec<_>>(),
             },
